@@ -89,7 +89,12 @@ def precheck_weights(r: R, chk, quals: List[str], rule="PRECHECK"):
                 continue  # the setter is the first write: its refusal leaves the curve untouched
             guards = []
             for g in r.raise_guards(ctx, ("ValueError",)):
-                calls = [c for c in ast.walk(g[0].ast) if isinstance(c, ast.Call) and seg(c.func).endswith("find_roots")]
+                exprs = [g[0].ast]
+                for nm in {x.id for x in ast.walk(g[0].ast) if isinstance(x, ast.Name)}:
+                    dd = [a for a in ast.walk(ctx.fi.node) if isinstance(a, ast.Assign) and any(isinstance(tt, ast.Name) and tt.id == nm for tt in a.targets)]
+                    if len(dd) == 1 and nm not in ctx.fi.params:
+                        exprs.append(dd[0].value)  # the test goes through a local with one definition
+                calls = [c for e_ in exprs for c in ast.walk(e_) if isinstance(c, ast.Call) and seg(c.func).endswith("find_roots")]
                 for c in calls:
                     names = {x.id for a in c.args for x in ast.walk(a) if isinstance(x, ast.Name)}
                     vn = {x.id for x in ast.walk(val) if isinstance(x, ast.Name)}
